@@ -132,6 +132,11 @@ func (g *Gen) classChar() rune {
 	return c
 }
 
+// CasedLetters are letters with case variants: ASCII, Latin-1, Greek (σ ς Σ and µ μ Μ have
+// three-member orbits), Cyrillic, a titlecase digraph (ǅ: three members), Kelvin/long s (their
+// orbits contain ASCII letters) and Deseret (four UTF-8 bytes).
+var CasedLetters = []rune{'a', 'Z', 'k', 's', 0xe9, 0xc9, 0x3b3, 0x393, 0x3c3, 0x3c2, 0x3a3, 0xb5, 0x39c, 0x3bc, 0x436, 0x416, 0x451, 0x401, 0x1c5, 0x1c4, 0x1c6, 0x212a, 0x17f, 0x10428, 0x10400, 0x1e921}
+
 var perlNames = []string{"d", "w", "s"}
 
 // SomeProps is a small set of frequently used names (the default of Gen.PropNames);
@@ -277,11 +282,13 @@ func (g *Gen) atom() *Node {
 		var rs []rune
 		for len(rs) < n {
 			c := g.char()
-			if c == '\\' || !encodable(c) {
-				continue
+			if g.R.Intn(3) == 0 {
+				// cased letters outside ASCII (2-4 bytes, orbits of two and three members): quoted
+				// text is folded character by character like unquoted text
+				c = CasedLetters[g.R.Intn(len(CasedLetters))]
 			}
-			if g.fold() && len(Orbit(c, g.Mode.Bytes)) > 1 {
-				continue // whether \Q..\E is folded is probed separately
+			if c == '\\' || !encodable(c) || g.Mode.Bytes && ByteFoldTrap(c) || g.MaxChar > 0 && c > g.MaxChar {
+				continue
 			}
 			rs = append(rs, c)
 		}
